@@ -2,6 +2,7 @@
 import json, os, re, subprocess
 from common import *
 import kani_engine as K
+import tv_engine as T
 
 # ---------------------------------------------------------------- harness tables
 # name -> (tier, timeout_s).  Timeouts are ~4x the time measured on the pinned tree.
@@ -74,11 +75,42 @@ def c05(res):
              TRUST_K + ["instantiation list is the bound (30 types incl. one level of nesting); machine calling convention outside the claim"])
 
 
-CHECKS = {"C02": c02, "C05": c05}
+def finish_t(res, assumptions):
+    res.level = "translation_validation"
+    res.assumptions += assumptions
+
+
+def c01(res):
+    T.run_tv(res, {"F1", "F2", "F3", "F4", "F8", "F9"}, {"value"},
+             note="returned value of the emitted code == reference value for all arguments on which the reference is defined")
+    finish_t(res, T.TRUST_T + ["inputs on which integer division is undefined are excluded here and decided under C10",
+                               "float arithmetic compared structurally (same IEEE operation on the same operands), NaNs identified"])
+
+
+def c03(res):
+    T.run_tv(res, {"F6"}, {"ledger"},
+             note="ownership ledger per feasible path: no double drop, no use after drop, no drop of uninitialised memory, nothing live at return")
+    finish_t(res, T.TRUST_T + ["host functions take ownership of by-value arguments (mk/eat/peek models in tv.py)"])
+
+
+def c08(res):
+    T.run_tv(res, {"F7", "F7R", "F6"}, {"trace"},
+             note="sequence of host calls and their argument values == reference trace on every jointly feasible path pair")
+    finish_t(res, T.TRUST_T)
+
+
+def c10(res):
+    T.run_tv(res, {"F1", "F9"}, {"trap"}, known_roles={k["role"] for k in known_findings() if k["property"] == "C10"},
+             note="for every reached sdiv/udiv/srem/urem: is there an argument assignment with trapping operands? each model replayed in a child process")
+    finish_t(res, T.TRUST_T)
+
+
+CHECKS = {"C01": c01, "C02": c02, "C03": c03, "C05": c05, "C08": c08, "C10": c10}
 
 
 def setup():
     K.build()
+    T.build()
     return 0
 
 
